@@ -757,7 +757,7 @@ try:
 
     @_findings.predicate("la_sqrtm_noconvergence_wide_spectrum")
     def _p6(inp):
-        return inp.get("tag") == "sqrtm_noconvergence_wide_spectrum" and ":rot_slow_" in str(inp.get("cls"))
+        return inp.get("tag") == "sqrtm_noconvergence_wide_spectrum" and (":rot_slow_" in str(inp.get("cls")) or ":rot_det:" in str(inp.get("cls")))
 
     @_findings.predicate("la_lu_cache_history")
     def _p4(inp):
